@@ -233,6 +233,12 @@ class SeqGen:
             ri = 0
         if s and s.stream is None and s.backlog == 0 and self.canon(s.topic) not in self.topics and r.chance(2, 3):
             ri = 0             # a blocking Pull on a subscription that has outlived its topic must still wait
+        if ri == 0 and self.streams and s and s.backlog == 0:
+            # while this Pull waits, nobody reads the open streams: minutes of redeliveries to an unread stream
+            # only fill the HTTP/2 window (a transport effect outside the model, as in op_adv) — wait briefly or not at all
+            wait = (min(x[1] for x in s.out) - self.clock) if s.out else 300 * 10 ** 6
+            if wait > 31 * 10 ** 6:
+                ri = 1
         self.emit("pull %s %d %d" % (hx(n), mx, ri))
         if s:
             m16 = mx % 65536
